@@ -7,7 +7,7 @@ use crate::reg_cluster::SF;
 use crate::reg_core::linfa_errors;
 use linfa::prelude::*;
 use linfa::Float;
-use ndarray::{Array1, Array2, Ix1, Ix2};
+use ndarray::{Array1, Array2, Ix1};
 use rand_xoshiro::Xoshiro256Plus;
 
 pub fn entries() -> Vec<Entry> {
